@@ -274,15 +274,18 @@ Variable s : svc.
 Variable r : req.
 
 Definition AT (a : st) : Prop :=
-  forall al, get_alloc a s = Some al -> a_ports al = r_ports r /\ a_key al = r_key r.
+  forall al, get_alloc a s = Some al ->
+    a_ports al = r_ports r /\ a_key al = r_key r /\
+    exists p, pool_for (by_name (s_pools a)) (a_ips al) = Some p /\ p_name p = a_pool al /\ compatible p r = true.
 
 Lemma AT_unassign a : AT (unassign a s).
 Proof. intros al H. rewrite get_alloc_unassign_same in H. discriminate. Qed.
 
 Lemma AT_assign a ips : AT a -> AT (fst (assign a s r ips)).
 Proof.
-  intros H. unfold assign. destruct (assign_check a s r ips) as [p|e]; cbn [fst]; [|exact H].
-  intros al Hg. rewrite get_alloc_do_assign_same in Hg. injection Hg as <-. cbn. auto.
+  intros H. unfold assign. destruct (assign_check a s r ips) as [p|e] eqn:Hck; cbn [fst]; [|exact H].
+  intros al Hg. rewrite get_alloc_do_assign_same in Hg. injection Hg as <-. cbn.
+  apply assign_check_spec in Hck. destruct Hck as (Hpf & Hc & _). split; [reflexivity|]. split; [reflexivity|]. exists p. auto.
 Qed.
 
 Lemma assign_fst a ips a' res : assign a s r ips = (a', res) -> a' = fst (assign a s r ips).
@@ -327,8 +330,9 @@ Variable s : svc.
 
 Lemma AT_assign_ok r a ips a' out : assign a s r ips = (a', ROk out) -> AT s r a'.
 Proof.
-  intros H. apply assign_ok_inv in H. destruct H as (p & _ & _ & ->).
-  intros al Hg. rewrite get_alloc_do_assign_same in Hg. injection Hg as <-. cbn. auto.
+  intros H. apply assign_ok_inv in H. destruct H as (p & Hck & _ & ->).
+  intros al Hg. rewrite get_alloc_do_assign_same in Hg. injection Hg as <-. cbn.
+  apply assign_check_spec in Hck. destruct Hck as (Hpf & Hc & _). split; [reflexivity|]. split; [reflexivity|]. exists p. auto.
 Qed.
 
 Lemma AT_clear r c : AT s r (cv_mem (clear c s)).
@@ -456,13 +460,23 @@ Proof.
   unfold ips_of in Hincl. destruct (get_alloc (cv_mem v) s) as [al'|] eqn:Hg'.
   2:{ exfalso. rewrite Eips in Hincl. exact (Hincl x (or_introl eq_refl)). }
   exists al'. split; [reflexivity|]. split; [exact Hincl|].
-  destruct (converge_attrs rank s _ _ _ _ _ EC al' Hg') as [Hpo Hke].
+  destruct (converge_attrs rank s _ _ _ _ _ EC al' Hg') as (Hpo & Hke & _).
   split; [rewrite Hpo; symmetry; apply Hports; exact Hg|].
   unfold key_of in Hkey. rewrite Hg, Hg' in Hkey. unfold skey_eqb in Hkey.
   apply andb_true_iff in Hkey. destruct Hkey as [K1 K2]. apply N.eqb_eq in K1. apply N.eqb_eq in K2.
   destruct (a_key al), (a_key al'). cbn in *. congruence.
 Qed.
 End SB.
+
+Section HandlerPools.
+Variable rank : ip -> N.
+Lemma apply_handler_pools w s k w1 r :
+  apply_handler rank w s k = Some (w1, r) -> s_pools (c_mem (w_ctl w1)) = s_pools (c_mem (w_ctl w)).
+Proof.
+  unfold apply_handler. destruct (set_balancer rank (w_ctl w) s (api_get w s) k) as [oc|] eqn:ES; [|discriminate].
+  intros [= <- _]. cbn. exact (proj1 (proj2 (set_balancer_spec rank _ _ _ _ _ ES))).
+Qed.
+End HandlerPools.
 
 (* ---------- Part 2: the reconciler ---------- *)
 Lemma omap_all_none {A B} (f : A -> option B) l : (forall x, f x = None) -> omap f l = [].
@@ -570,7 +584,7 @@ Proof.
         rewrite aget_put_same. intros [= <-]. cbn. apply (HAP s o Eo).
       * rewrite (Hapi t Hne). apply HAP.
     + intros t al. destruct (N.eq_dec t s) as [->|Hne].
-      * rewrite Hmem. intros Hg. destruct (converge_attrs rank s _ _ _ _ _ EC al Hg) as [Hpo _].
+      * rewrite Hmem. intros Hg. destruct (converge_attrs rank s _ _ _ _ _ EC al Hg) as (Hpo & _).
         rewrite Hpo. apply (HAP s o Eo).
       * rewrite (HF1 t Hne). apply HMP.
     + intros Hr t Hne Pt ot Hot He Hst. rewrite (Hapi t Hne) in Hot.
